@@ -242,7 +242,8 @@ def run_batch(pid, spec, seed, scale, tag):
         fams = b.get("families")
         known_fams = dict(bin_spec(spec, b["bin"])["checkers"])
         for f_, d_ in spec.get("family_types", {}).items(): known_fams.update(d_["checkers"])
-        unknown = sorted({f for f, _ in cases if f not in known_fams and (fams is None or f in fams)})
+        unknown = sorted({f for f, _ in cases if f not in known_fams and (fams is None or f in fams)
+                          and f not in spec.get("ignore_families", [])})
         if unknown:
             problems.append("harness %s printed case families without a checker: %s" % (b["bin"], unknown))
         all_cases += [(f, t, b["bin"]) for f, t in cases if (fams is None or f in fams) and f in known_fams]
@@ -273,9 +274,12 @@ def main():
         if not ok:
             broken.append({"kind": "translator", "message": out[-600:]})
         m_unp = re.search(r"\((\d+) unparsed\)", out)
-        if ok and m_unp and int(m_unp.group(1)) > 0 and "Gen.PacketsGen" in " ".join(spec.get("imports", []) + ["Gen.PacketsGen" if spec["run_files"][0] == "Run/CaseConn.v" else ""]):
-            # a packet impl the translator no longer understands: its layout is not re-checked from the source
-            broken.append({"kind": "translator-tie", "message": "packet impls the translator cannot parse any more: " + out[-600:]})
+        if ok and m_unp and int(m_unp.group(1)) > 0 and spec["run_files"][0] == "Run/CaseConn.v":
+            # a packet impl the translator no longer understands.  For C09 the layout theorems then fail to
+            # compile (the translator is C09's tie).  For the connection properties the tie is the
+            # correspondence: the model falls back to the protocol table for that packet (Run/CaseConn.v mkinds)
+            # and the correspondence is re-run at the search scale.
+            skeleton_changed = "packet impls the translator cannot parse any more: " + out[-600:]
         # skeleton tie of the hand-transcribed functions
         if spec.get("skeleton"):
             rc_sk, out_sk = sh([sys.executable, os.path.join(ROOT, "tools", "skeleton.py"), "check", ",".join(spec["skeleton"])])
@@ -284,9 +288,9 @@ def main():
                 # harmless rewrite changes the skeleton too): the correspondence is re-run at the search scale
                 # below, and only a disagreement or a monitor failure found there counts.  VERIF_SKELETON=gate
                 # restores the strict reading (an edited skeleton is itself a broken tie).
-                skeleton_changed = out_sk[-1200:]
+                skeleton_changed = (skeleton_changed + " ; " if skeleton_changed else "") + out_sk[-1200:]
                 if os.environ.get("VERIF_SKELETON", "advisory") == "gate":
-                    broken.append({"kind": "skeleton-tie", "message": skeleton_changed})
+                    broken.append({"kind": "skeleton-tie", "message": out_sk[-1200:]})
         # model + checkers first (must build even when a proof is broken)
         okm, outm = coq_make([f + "o" for f in spec["run_files"]])
         if not okm:
